@@ -81,11 +81,11 @@ let coq_case line =
         (g_str cfg.c_prefix) (g_lst "tag" g_tag cfg.c_tags) (g_option g_str cfg.c_container) in
     let g_line = function
       | None -> "None"
-      | Some (Inl e) -> "(Some (inl " ^ (match e with InvalidInput -> "InvalidInput" | IoError -> "IoError") ^ "))"
+      | Some (Inl e) -> "(Some (inl " ^ g_merr e ^ "))"
       | Some (Inr l) -> "(Some (inr " ^ g_str l ^ "))" in
     let g_hint = function
       | None -> "None" | Some None -> "(Some None)" | Some (Some h) -> "(Some (Some " ^ g_N h ^ "))" in
     Some (Printf.sprintf "map (fun c => (client_line %s c, call_hint %s c)) %s = %s" g_cfg g_cfg (g_lst "call" g_call cs)
-            (g_lst "(option (errkind + list N) * option (option N))"
+            (g_lst "(option (merror + list N) * option (option N))"
                (fun c -> g_pair (g_line (client_line cfg c)) (g_hint (call_hint cfg c))) cs))
   | _ -> None
